@@ -16,6 +16,7 @@ import traceback
 sys.dont_write_bytecode = True
 ROOT = os.path.dirname(os.path.dirname(os.path.abspath(__file__)))
 REPO = os.environ.get("VERIF_REPO", "/repo")
+OUT = os.environ.get("VERIF_OUT", ROOT)  # where replays/ and evidence/ are written (scratch runs against seeded trees)
 for p in (ROOT, REPO):
     if p not in sys.path:
         sys.path.insert(0, p)
@@ -133,6 +134,26 @@ def explore_parallel(pool, jobs, tier, nproc, max_paths=400000):
     return fn_reports, list(results.values()), errors
 
 
+class NativeDeadline(BaseException):
+    """a native (real-code) search or replay ran past its wall-clock budget"""
+
+
+def with_deadline(seconds, fn, *args):
+    """Run a native search on the real code under a wall-clock budget: the code under test may loop for ever (that is what
+    some violations look like).  The timer keeps firing so that a bare `except:` in the library cannot swallow it for good."""
+    import signal
+
+    def on_alarm(signum, frame):
+        raise NativeDeadline(f"native search exceeded {seconds}s")
+    old = signal.signal(signal.SIGALRM, on_alarm)
+    signal.setitimer(signal.ITIMER_REAL, seconds, 1.0)
+    try:
+        return fn(*args)
+    finally:
+        signal.setitimer(signal.ITIMER_REAL, 0)
+        signal.signal(signal.SIGALRM, old)
+
+
 def load_known():
     p = os.path.join(ROOT, "known_findings.json")
     if not os.path.exists(p):
@@ -189,14 +210,17 @@ def main(argv=None):
     bounded_reports, bounded_viol = [], []
     for b in prop.get("bounded", []):
         try:
-            br = b(tier, seed)
+            br = with_deadline(300 if tier == "quick" else 3600, b, tier, seed)
+        except NativeDeadline as ex:
+            print(f"CHECKER-ERROR: bounded stand-in did not finish: {ex}", file=sys.stderr)
+            return 3
         except Exception:
             traceback.print_exc()
             return 3
         bounded_reports.append({k: v for k, v in br.items() if k != "violations"})
         bounded_viol.extend(br.get("violations", []))
     violations = []
-    os.makedirs(os.path.join(ROOT, "replays", pid), exist_ok=True)
+    os.makedirs(os.path.join(OUT, "replays", pid), exist_ok=True)
     seen = set()
     for r in failed:
         if r["id"] in seen:
@@ -207,11 +231,11 @@ def main(argv=None):
             continue
         conc = None
         try:
-            conc = replay.concretise(pid, r, tier, seed)
-        except Exception:
+            conc = with_deadline(120 if tier == "quick" else 900, replay.concretise, pid, r, tier, seed)
+        except (Exception, NativeDeadline):
             conc = dict(found=False, error=traceback.format_exc())
         fname = re.sub(r"[^A-Za-z0-9_.-]+", "_", r["id"])[:150] + ".json"
-        path = os.path.join(ROOT, "replays", pid, fname)
+        path = os.path.join(OUT, "replays", pid, fname)
         rep = fn_reports.get(r["fn"].split("/")[0], {})
         json.dump(dict(property=pid, obligation=r["id"], function_sha256=rep.get("sha256"), line=r.get("line"),
                        solver=dict(backend=r.get("backend"), reason=r.get("reason"), model=r.get("model"), goal=r.get("goal"),
@@ -222,11 +246,11 @@ def main(argv=None):
         # a function left the verifiable subset: its contract is undecided; a bounded native search stands in (labelled bounded).
         # Only a concrete failing input replayed on the real code turns this into a violation.
         try:
-            conc = replay.concretise(pid, dict(id="undecided", model=None), tier, seed)
-        except Exception:
+            conc = with_deadline(120 if tier == "quick" else 900, replay.concretise, pid, dict(id="undecided", model=None), tier, seed)
+        except (Exception, NativeDeadline):
             conc = dict(found=False, error=traceback.format_exc())
         if conc and conc.get("found"):
-            path = os.path.join(ROOT, "replays", pid, "bounded_fallback_for_undecided_function.json")
+            path = os.path.join(OUT, "replays", pid, "bounded_fallback_for_undecided_function.json")
             json.dump(dict(property=pid, obligation="bounded stand-in (function outside the verifiable subset: " + "; ".join(f"{k}: {u[0]}" for k, u in fn_undec.items()) + ")",
                            concrete=conc), open(path, "w"), indent=1, default=str)
             violations.append((path, True))
@@ -235,7 +259,7 @@ def main(argv=None):
         if kf is not None:
             continue
         fname = re.sub(r"[^A-Za-z0-9_.-]+", "_", "bounded_" + bv.get("witness_id", "case"))[:150] + ".json"
-        path = os.path.join(ROOT, "replays", pid, fname)
+        path = os.path.join(OUT, "replays", pid, fname)
         json.dump(dict(property=pid, obligation="bounded:" + bv.get("check", ""), concrete=dict(found=True, **bv)),
                   open(path, "w"), indent=1, default=str)
         violations.append((path, True))
@@ -280,8 +304,8 @@ def main(argv=None):
         assumptions=prop.get("assumptions", []) + reg.assumed_contracts_used(prop),
         wall_s=round(time.time() - t0, 3), violations=len(violations),
     )
-    os.makedirs(os.path.join(ROOT, "evidence"), exist_ok=True)
-    json.dump(ev, open(os.path.join(ROOT, "evidence", f"{pid}.json"), "w"), indent=1, default=str)
+    os.makedirs(os.path.join(OUT, "evidence"), exist_ok=True)
+    json.dump(ev, open(os.path.join(OUT, "evidence", f"{pid}.json"), "w"), indent=1, default=str)
     if a.v:
         for r in results:
             if r["verdict"] != "discharged":
